@@ -28,12 +28,13 @@ def main():
     rc1, _ = sh('/venv/bin/python .seed/demo.py >/dev/null 2>&1', cwd=wt)
     res['confirm']['demo_with_change'] = dict(rc=rc1, tail=out1.strip()[-300:])
     # 3. demo passes without
-    sh('git stash -q', cwd=wt)
+    # (not `git stash`: the stash is shared by all worktrees of a repository and collided with agents working next door)
+    sh('git diff > .seed/_cur.diff && git apply -R .seed/_cur.diff', cwd=wt)
     try:
         rc2, _ = sh('/venv/bin/python .seed/demo.py >/dev/null 2>&1', cwd=wt)
         _, out2 = sh('/venv/bin/python .seed/demo.py 2>&1 | tail -2', cwd=wt)
     finally:
-        sh('git stash pop -q', cwd=wt)
+        sh('git apply .seed/_cur.diff && rm -f .seed/_cur.diff', cwd=wt)
     res['confirm']['demo_without_change'] = dict(rc=rc2, tail=out2.strip()[-200:])
     ok = ('63 passed' in res['confirm']['tests_with_change']) and rc1 != 0 and rc2 == 0
     res['confirmed'] = ok
